@@ -46,7 +46,10 @@ func drawConfig(t *rapid.T, o simOpts) sim.Config {
 	}
 	order := rapid.Permutation(seq(n)).Draw(t, "order")
 	cfg := sim.Config{N: n, Weights: ws, Order: order, Rot: rapid.IntRange(0, n-1).Draw(t, "rot"), MaxHeight: uint64(rapid.IntRange(1, int(o.MaxHeight)).Draw(t, "maxh")), Focus: o.Focus}
-	// Byzantine subset of weight <= f, biased to maximal: greedy over a drawn order
+	if rapid.IntRange(0, 2).Draw(t, "wrot?") == 0 {
+		cfg.WRot = rapid.IntRange(1, n-1).Draw(t, "wrot")
+	}
+	// Byzantine subset of weight <= f (at every height), biased to maximal: greedy over a drawn order
 	if rapid.IntRange(0, 99).Draw(t, "byz?") < o.ByzBias {
 		cand := rapid.Permutation(seq(n)).Draw(t, "byzorder")
 		for _, i := range cand {
@@ -61,6 +64,10 @@ func drawConfig(t *rapid.T, o simOpts) sim.Config {
 			}
 		}
 		cfg.Outsiders = rapid.IntRange(0, 2).Draw(t, "outsiders")
+	}
+	if rapid.IntRange(0, 7).Draw(t, "failcommit?") == 0 {
+		cfg.FailCommit = []int{rapid.IntRange(0, n-1).Draw(t, "failnode")}
+		cfg.FailCommitH = uint64(rapid.IntRange(1, int(cfg.MaxHeight)).Draw(t, "failh"))
 	}
 	if rapid.IntRange(0, 9).Draw(t, "crash?") == 0 {
 		// crash one correct node only if the remaining correct weight still has a chance (not required for safety properties)
